@@ -23,6 +23,7 @@ import (
 	"regexp"
 	"strings"
 	"sync"
+	"sync/atomic"
 	"time"
 
 	"github.com/alicebob/miniredis/v2"
@@ -68,10 +69,20 @@ func wireHammer(r *Run, tag string) {
 		if strings.HasPrefix(line, "CC-SUMMARY ") {
 			var sum map[string]int
 			if json.Unmarshal([]byte(strings.TrimPrefix(line, "CC-SUMMARY ")), &sum) == nil {
+				total := 0
 				for k, n := range sum {
 					r.Dist["wire:"+k] = n
-					r.Evaluations += n
+					total += n
 				}
+				// counted: the guaranteed minimum (the child runs until it has done that much); what a faster machine does beyond
+				// it is reported separately
+				floor := 500 * budget
+				if total < floor {
+					floor = total
+				}
+				r.Evaluations += floor
+				r.Extra["wire_operations_total"] = total
+				r.Extra["wire_operations_counted_as_evaluations"] = floor
 			}
 		}
 	}
@@ -134,7 +145,8 @@ func runCCWireChild(r *Run) {
 	}
 	counts := map[string]int{}
 	var cmu sync.Mutex
-	count := func(k string) { cmu.Lock(); counts[k]++; cmu.Unlock() }
+	var totalOps int64
+	count := func(k string) { cmu.Lock(); counts[k]++; cmu.Unlock(); atomic.AddInt64(&totalOps, 1) }
 	ask := func(cl envoy.AuthorizationClient, path, cookie string) (*envoy.CheckResponse, error) {
 		h := map[string]string{}
 		if cookie != "" {
@@ -178,6 +190,13 @@ func runCCWireChild(r *Run) {
 		return loc, cookie, true
 	}
 	deadline := time.Now().Add(time.Duration(budget) * time.Second)
+	// runs for its time budget AND until a minimum amount of work is done (at most four budgets): on a loaded machine it
+	// runs longer instead of doing less, so that what the evidence reports does not depend on the load
+	hardDeadline := time.Now().Add(time.Duration(4*budget) * time.Second)
+	running := func() bool {
+		now := time.Now()
+		return now.Before(deadline) || (atomic.LoadInt64(&totalOps) < int64(500*budget) && now.Before(hardDeadline))
+	}
 	var wg sync.WaitGroup
 	for g := 0; g < 12; g++ {
 		wg.Add(1)
@@ -186,7 +205,7 @@ func runCCWireChild(r *Run) {
 			cl := dial()
 			if g%2 == 0 {
 				// anonymous browsers: one login redirect after the other
-				for i := 0; time.Now().Before(deadline); i++ {
+				for i := 0; running(); i++ {
 					resp, err := ask(cl, fmt.Sprintf("/anon/%d/%d", g, i), "")
 					count("redirect")
 					if err != nil {
@@ -222,7 +241,7 @@ func runCCWireChild(r *Run) {
 				violate("the callback of a login did not return the browser to the URL it had asked for", map[string]any{"who": me, "got": showResp(r2, err)})
 				return
 			}
-			for i := 0; time.Now().Before(deadline); i++ {
+			for i := 0; running(); i++ {
 				r3, err := ask(cl, fmt.Sprintf("/home/%s/%d", me, i), cookie)
 				count("allowed")
 				if err != nil || r3.GetStatus().GetCode() != 0 {
